@@ -53,6 +53,8 @@ def canon_stack_expr(v):
         lo, hi = v[2][1], v[2][2]
         if base and base[2] is None and lo is None and hi is not None and hi[0] == 'unop' and hi[1] == 'USub':
             return ('stk', base[1], hi[2])
+        if base and base[2] is None and lo is None and hi is not None and hi[0] == 'const' and isinstance(hi[1], int) and hi[1] < 0:
+            return ('stk', base[1] - hi[1], None)            # stack[:-k] with a literal k: k more items removed
     return None
 
 
@@ -64,6 +66,12 @@ def canon_value(v):
         base = canon_stack_expr(v[1])
         if base and base[2] is None and isinstance(v[2], int) and v[2] < 0:
             return ('slot', base[1] - v[2])
+        # a, b = stack[-2:]  : item i of the top-k slice is the slot k - i from the top
+        if v[1][0] == 'sub' and v[1][2][0] == 'slice' and v[1][2][2] is None and v[1][2][1] is not None and v[1][2][1][0] == 'const' \
+                and isinstance(v[1][2][1][1], int) and v[1][2][1][1] < 0 and isinstance(v[2], int) and 0 <= v[2] < -v[1][2][1][1]:
+            base = canon_stack_expr(v[1][1])
+            if base and base[2] is None:
+                return ('slot', base[1] - v[1][2][1][1] - v[2])
     if v[0] == 'sub':
         base = canon_stack_expr(v[1])
         if base and base[2] is None:
@@ -100,6 +108,11 @@ def level_facts(py: PyRepo, ci: ClassInfo, meth: str, _depth: int = 0) -> Method
             hit = py.find_method(ci, f.attr)
             if hit is not None and not any(isinstance(n, (ast.For, ast.While)) for n in ast.walk(hit[1])) \
                     and not any('property' in ast.unparse(d) for d in hit[1].decorator_list):
+                decos = [ast.unparse(d).split('(')[0].split('.')[-1] for d in hit[1].decorator_list]
+                if 'staticmethod' in decos:
+                    return hit[1], None
+                if 'classmethod' in decos:
+                    return hit[1], ('name', ci.name)
                 return hit[1], SELF
         return None
 
@@ -112,7 +125,7 @@ def level_facts(py: PyRepo, ci: ClassInfo, meth: str, _depth: int = 0) -> Method
 
         rec = {'conds': [(canon_value(c), b) for c, b in p.conds], 'binds': [], 'pushes': [], 'mem': [], 'claims': None,
                'supers': [], 'writes': [], 'loops': [], 'k': 0, 'n': None, 'subcalls': [], 'other': [],
-               'ret': canon_value(p.end[1]) if p.end[0] == 'return' else None, 'end': p.end[0], 'node': p.node}
+               'ret': canon_value(p.end[1]) if p.end[0] == 'return' else None, 'end': p.end[0], 'node': p.node, 'events': p.events}
         cur = ('stk', 0, None)
         ok = True
         for e in p.events:
